@@ -274,11 +274,13 @@ def main():
         "setup_cmd": "./setup.sh",
         "hooks": {
             "guard": "derive_more_verif",
-            "enable": "no source hooks: the in-process harness #[path]-includes /repo/impl/src and probe crates use the "
-                      "real proc-macro by path dependency; nothing in /repo is cfg-guarded",
+            "enable": "one source hook: impl/src/fmt/mod.rs fn verif_parse_fmt_attribute, compiled only with the cargo feature "
+                      "derive_more_verif of derive_more-impl (off by default, not part of full). The in-process harness "
+                      "(harness/inproc, which #[path]-includes /repo/impl/src) enables the feature of the same name in its own "
+                      "Cargo.toml; probe crates use the real proc-macro by path dependency with the hook off",
             "baseline_off_cmd": "cd /repo && (cargo nextest run --workspace --no-fail-fast --offline || "
                                 "cargo test --workspace --no-fail-fast --offline)",
-            "source_commits": [],
+            "source_commits": ["4a3b132698f9918d3f596ef776c123aff2dc2ad7"],
             "add_only": True,
         },
         "engines": [{
